@@ -1,0 +1,32 @@
+//go:build verif
+
+package x509
+
+// Verification hook for the certificate-metadata check (add-only, build tag verif).
+
+import (
+	"bytes"
+
+	"github.com/zmap/zcrypto/encoding/asn1"
+)
+
+// VerifTBSRemarshals unmarshals der exactly as ParseCertificate does and
+// reports whether the TBSCertificate, marshalled again with Raw cleared,
+// reproduces its own bytes (the certificate is canonically encoded as far as
+// this package's encoder is concerned).  parsed is false when der does not
+// unmarshal or has trailing data.
+func VerifTBSRemarshals(der []byte) (same bool, parsed bool) {
+	var cert certificate
+	rest, err := asn1.Unmarshal(der, &cert)
+	if err != nil || len(rest) > 0 {
+		return false, false
+	}
+	tbs := cert.TBSCertificate
+	raw := tbs.Raw
+	tbs.Raw = nil
+	b, err := asn1.Marshal(tbs)
+	if err != nil {
+		return false, true
+	}
+	return bytes.Equal(b, raw), true
+}
